@@ -218,6 +218,17 @@ def check_search(chk, cfg, b, paths, table_term, row_sel=(0, 1)):
     inval = [p for p in paths if p.end == "return" and opt_kind(p.ret)[0] == "Err" and opt_kind(p.ret)[1][3] == "InvalidCodon"]
     ok1 = len(inval) == 1 and gset(inval[0].guards) == {(L3[0], nf.NEG[L3[1]])} and not inval[0].others() and \
         an.is_call(opt_kind(inval[0].ret)[1][4][0], into_seq, (P(2),))
+    # scan-first form: the table is searched before the length is looked at, and after the loop the length picks the error.
+    # Equivalent to the length-first form because no row can match a codon of another length: every row codon has three symbols
+    # (T-iupac-rows/len) and Seq<Iupac>::contains is false whenever the lengths differ (C12's G-contains/len, imported below) -
+    # if either premise fails, that obligation is the report.
+    nxt_call = re.compile(r"as std::iter::Iterator>::next$")
+    def exhausted(g):
+        return g[0] == "sw" and g[1][0] == "discr" and an.is_call(g[1][1], nxt_call) and g[2] == "==" and g[3] == 0
+    scan_first = not ok1 and len(inval) == 1 and gset(inval[0].guards) == {(L3[0], nf.NEG[L3[1]])} and \
+        len(inval[0].others()) == 1 and exhausted(inval[0].others()[0]) and \
+        an.is_call(opt_kind(inval[0].ret)[1][4][0], into_seq, (P(2),))
+    ok1 = ok1 or scan_first
     chk.ob("G20/len", what, ok1, "InvalidCodon must be returned exactly when len != 3, carrying the codon: %s" % [p.describe()[:160] for p in inval], b["span"])
     conts = [p for p in paths if p.end == "continue"]
     oks = [p for p in paths if p.end == "return" and opt_kind(p.ret)[0] == "Ok"]
@@ -233,7 +244,7 @@ def check_search(chk, cfg, b, paths, table_term, row_sel=(0, 1)):
         g_ok, g_ct = cg(oks[0]), cg(conts[0])
         good = len(g_ok) == 1 and g_ok[0][2] is True and g_ok[0][1][2] == (row_codon, P(2)) and \
             len(g_ct) == 1 and g_ct[0][2] is False and g_ct[0][1][2] == (row_codon, P(2)) and \
-            opt_kind(oks[0].ret)[1] == row_amino and L3 in gset(oks[0].guards) and \
+            opt_kind(oks[0].ret)[1] == row_amino and (gset(oks[0].guards) == set() and gset(conts[0].guards) == set() and gset(ambs[0].guards) == {L3} if scan_first else L3 in gset(oks[0].guards)) and \
             an.is_call(opt_kind(ambs[0].ret)[1][4][0], into_seq, (P(2),)) and not cg(ambs[0])
         src = xlate.plain_source(cfg, xlate.iter_source(oks[0]))
         good = good and src is not None and src == xlate.plain_source(cfg, table_term)
